@@ -21,14 +21,58 @@ SCOPES = ["data", "builtins", "locals", "globals", "extra"]
 N = 3
 
 
+def envobj_harness(env):
+    """an Environment object of the caller passed as env= to several calls: every call sees its own
+    extra_namespace in front of the captured scopes and leaves the object as it was"""
+    from formulae import design_matrices
+    from formulae.environment import Environment
+
+    x, y = env.column("x", N), env.column("y", N)
+    df = env.frame({"y": y, "x": x})
+    v1, v2, v3 = env.real("val_first"), env.real("val_second"), env.real("val_captured")
+    g = {"__builtins__": __builtins__, "Environment": Environment}
+    exec("def capture(captured_name):\n    return Environment.capture()", g)
+    E = g["capture"](v3)
+    snap = lambda: [(id(d), sorted(map(str, d)), [id(v) for _, v in sorted(d.items(), key=lambda kv: str(kv[0]))]) for d in getattr(E, "_namespaces", [])]  # noqa: E731
+    before = snap()
+
+    def rec(a, v):
+        return a + v
+
+    def run(formula, extra):
+        with env.running():
+            return np.asarray(design_matrices(formula, df, env=E, extra_namespace=extra).common.design_matrix)[:, 1]
+
+    try:
+        c1 = run("y ~ rec(x, probe)", {"rec": rec, "probe": v1})
+        c2 = run("y ~ rec(x, probe)", {"rec": rec, "probe": v2})
+        c3 = run("y ~ rec(x, captured_name)", {"rec": rec})
+    except symx.PathEnd:
+        raise
+    except Exception as e:
+        env.fail("a caller-made Environment passed as env= cannot be used", {"exc": type(e).__name__, "site": core.repo_site(e)})
+        return
+    env.prove_equal(c1, x + v1, "env object: the call's own extra_namespace is used (first call)")
+    env.prove_equal(c2, x + v2, "env object: the call's own extra_namespace is used (second call, same object)")
+    env.prove_equal(c3, x + v3, "env object: captured locals are visible")
+    try:
+        run("y ~ rec(x, probe)", {"rec": rec})
+        env.fail("env object: a name given only to an earlier call still resolves")
+    except symx.PathEnd:
+        raise
+    except Exception:  # noqa
+        env.ok("env object: a name given only to an earlier call does not resolve later")
+    env.prove(snap() == before, "env object: unchanged by the calls")
+
+
 def cases(tier):
-    out = []
+    out = [("envobj", "plain", 0)]
     depths = [0, 1, 2, 3] if tier == "quick" else [0, 1, 2, 3, 4, 5, 6]
     for role in ("argument", "kwarg", "callee"):
-        for flavour in ("plain", "pyname", "dotted", "dotted3", "dotted3same", "dotted4", "backquoted", "unicode"):
+        for flavour in ("plain", "pyname", "dotted", "dotted3", "dotted3same", "dotted4", "backquoted", "unicode", "kwlike"):
             if role in ("argument", "kwarg") and flavour.startswith("dotted"):
                 continue
-            if role == "callee" and flavour in ("backquoted", "unicode"):
+            if role == "callee" and flavour in ("backquoted", "unicode", "kwlike"):
                 continue
             for depth in depths:
                 out.append((role, flavour, depth))
@@ -56,6 +100,8 @@ def harness(env, case):
     from formulae.transforms import TRANSFORMS
 
     role, flavour, depth = case
+    if role == "envobj":
+        return envobj_harness(env)
     c = env.c
     sym = env.mode == "sym"
     # which scopes define the name at the selected depth
@@ -84,6 +130,9 @@ def harness(env, case):
         base = "round" if role == "callee" else "len"  # names of PYTHON builtins are not a scope of their own
     if flavour == "backquoted":
         base = "odd name!"
+    if flavour == "kwlike":
+        bits["builtins"] = False
+        base = "none" if role == "argument" else "TRUE"  # ordinary names that only LOOK like Python's None / True
     if flavour == "unicode":
         base = "\u00b5g"  # MICRO SIGN: its NFKC form is GREEK SMALL LETTER MU
     head = base if not flavour.startswith("dotted") else "m"
@@ -138,7 +187,7 @@ def harness(env, case):
 
     if bits["extra"]:
         extra[head] = bound("extra")
-    name_in_formula = {"plain": base, "pyname": base, "backquoted": f"`{base}`", "dotted": "m.fn", "dotted3": "m.sub.fn", "dotted3same": "m.fn.fn", "dotted4": "m.a.b.fn", "unicode": base}[flavour]
+    name_in_formula = {"plain": base, "pyname": base, "backquoted": f"`{base}`", "dotted": "m.fn", "dotted3": "m.sub.fn", "dotted3same": "m.fn.fn", "dotted4": "m.a.b.fn", "kwlike": base, "unicode": base}[flavour]
     formula = {"argument": f"y ~ rec(x, {name_in_formula})", "kwarg": f"y ~ rec(x, v={name_in_formula})", "callee": f"y ~ {name_in_formula}(x)"}[role]
     # nested callers: frame i has its own globals dict; decoys at every depth other than the selected one
     result = {}
